@@ -25,13 +25,12 @@ own are unchanged.  Calls that raise are outside the property ("returns normally
 """
 import os
 import sys
-import itertools
 import numpy as np
 import thermosteam as tmo
 from thermosteam import equilibrium as eq
 from thermosteam.exceptions import InfeasibleRegion, NoEquilibrium
 from thermosteam.mixture.mixture import Mixture
-from engine.api import group, CheckAbort
+from engine.api import group
 from engine.sx import tmo_world as W
 
 # proofs go to a fresh one-shot solver first (engine/sx/sym.py: measured 100x faster on the nonlinear (z/F - m)*F + m*F = z VCs)
@@ -442,7 +441,7 @@ VLE_THOROUGH = {
     'PH': [('WE', {'W': '+0', 'E': '++'}, dict(_C, k=0)), ('WE', {'W': '+?', 'E': '?+'}, dict(_CI, k=2)),
            ('WN', {'W': '+?', 'N': '?+'}, dict(_C, k=1)), ('WEN', {'W': '+0', 'E': '0+', 'N': '?+'}, dict(_CI, k=1)),
            ('WEX', {'W': '+0', 'E': '0+', 'X': '+?'}, dict(_CI, k=1)), ('WEM', {'W': '+0', 'E': '0+', 'M': '++'}, dict(_CI, k=0))],
-    'PS': [('WE', {'W': '+?', 'E': '?+'}, dict(_CI, k=2)), ('WN', {'W': '+0', 'N': '0+'}, dict(_C, k=0)),
+    'PS': [('WE', {'W': '+?', 'E': '?+'}, dict(_CI, k=2)),      # (VLE.__call__ runs set_PS twice when the first attempt raises)
            ('WEN', {'W': '+0', 'E': '0+', 'N': '?+'}, dict(_CI, k=1)), ('WEX', {'W': '+0', 'E': '0+', 'X': '+?'}, dict(_CI, k=1))],
     'TH': [('WE', {'W': '??', 'E': '??'}, dict(_C, k=2)), ('WEX', {'W': '+?', 'E': '?+', 'X': '?+'}, dict(_C, k=1)),
            ('WEM', {'W': '+?', 'E': '?+', 'M': '++'}, dict(_C, k=1))],
@@ -498,7 +497,7 @@ def clip_configs(tier):
     fam = [('WE', {'W': '+?', 'E': '?+'}, 'fixed-point'), ('WEN', {'W': '+0', 'E': '0+', 'N': '?+'}, 'fixed-point'),
            ('WX', {'W': '++', 'X': '+0'}, 'fixed-point'), ('WE', {'W': '+?', 'E': '?+'}, 'shgo')]
     if tier == 'thorough':
-        fam += [('WEM', {'W': '+?', 'E': '?+', 'M': '++'}, 'fixed-point'), ('WENX', {k: '??' for k in 'WENX'}, 'fixed-point'),
+        fam += [('WEM', {'W': '+?', 'E': '?+', 'M': '++'}, 'fixed-point'), ('WENX', {'W': '+?', 'E': '?+', 'N': '?+', 'X': '+?'}, 'fixed-point'),
                 ('WEN', {'W': '??', 'E': '??', 'N': '?+'}, 'shgo')]
     return [{'name': f'{keys}/{_dist_name(d, keys)}/{m}', 'pkg': keys, 'dist': d, 'method': m} for keys, d, m in fam]
 
